@@ -65,7 +65,7 @@ def check(run):
         b = bucket_union(D, c)
         t0 = time.time()
         v, w = langs.relang.included(a, b, None, 20 if run.tier == 'quick'
-                                     else 120, backends=('z3cli', 'cvc5'))
+                                     else 120, backends=('z3new', 'z3cli', 'cvc5'))
         dt = time.time() - t0
         g = 'C05::quoting::bucket-%s' % (
             'empty' if c == '' else 'U+%04X' % ord(c))
